@@ -270,24 +270,53 @@ func c11rVerifyDeposit(pubkey, wc, sig []byte, amount int, forkVersion []byte) e
 // c11rArtefacts runs the monitor on what the nodes wrote below dir; fills c.Validators.
 func c11rArtefacts(t *testing.T, c *c11rCeremony, dir string, totalVals int, checks map[string]int) (string, string) {
 	t.Helper()
+	var (
+		locks     []*cluster.Lock
+		raw       [][]byte
+		secrets   [][]tbls.PrivateKey // [node][validator]
+		verifyErr string
+	)
+	key, what := c11rArtefactsInner(t, c, dir, totalVals, checks, &locks, &raw, &secrets, &verifyErr)
+	if verifyErr != "" {
+		if key == "" {
+			return "dkg:lock-does-not-verify", verifyErr
+		}
+		what += " (and: " + verifyErr + ")"
+	}
+	return key, what
+}
+
+func c11rArtefactsInner(t *testing.T, c *c11rCeremony, dir string, totalVals int, checks map[string]int,
+	locksP *[]*cluster.Lock, rawP *[][]byte, secretsP *[][]tbls.PrivateKey, verifyErrP *string) (string, string) {
+	t.Helper()
 	n, th := c.N, c.T
 	var (
-		locks   []*cluster.Lock
-		raw     [][]byte
-		secrets [][]tbls.PrivateKey // [node][validator]
+		locks     []*cluster.Lock
+		raw       [][]byte
+		secrets   [][]tbls.PrivateKey
+		verifyErr string
 	)
+	defer func() { *locksP, *rawP, *secretsP, *verifyErrP = locks, raw, secrets, verifyErr }()
 	for i := 0; i < n; i++ {
 		dataDir := path.Join(dir, fmt.Sprintf("node%d", i))
 		lock, err := dkg.LoadAndVerifyClusterLock(context.Background(), path.Join(dataDir, "cluster-lock.json"), "", false)
 		checks["lock_loads_and_verifies"]++
 		if err != nil {
-			return "dkg:lock-does-not-verify", fmt.Sprintf("node %d: cluster-lock.json does not load/verify: %v", i, err)
-		}
-		if err := lock.VerifyHashes(); err != nil {
-			return "dkg:lock-does-not-verify", fmt.Sprintf("node %d: lock hashes: %v", i, err)
-		}
-		if err := lock.VerifySignatures(nil); err != nil {
-			return "dkg:lock-does-not-verify", fmt.Sprintf("node %d: lock signatures: %v", i, err)
+			// keep going on the unverified lock: the deeper checks say WHAT is wrong with the keys
+			if verifyErr == "" {
+				verifyErr = fmt.Sprintf("node %d: cluster-lock.json does not load/verify: %v", i, err)
+			}
+			lock, err = dkg.LoadAndVerifyClusterLock(context.Background(), path.Join(dataDir, "cluster-lock.json"), "", true)
+			if err != nil {
+				return "dkg:lock-does-not-verify", verifyErr
+			}
+		} else {
+			if err := lock.VerifyHashes(); err != nil {
+				return "dkg:lock-does-not-verify", fmt.Sprintf("node %d: lock hashes: %v", i, err)
+			}
+			if err := lock.VerifySignatures(nil); err != nil {
+				return "dkg:lock-does-not-verify", fmt.Sprintf("node %d: lock signatures: %v", i, err)
+			}
 		}
 		b, err := os.ReadFile(path.Join(dataDir, "cluster-lock.json"))
 		if err != nil {
@@ -581,7 +610,9 @@ func TestVerifC11Run(t *testing.T) {
 			if key == "dkg:honest-ceremony-fails" {
 				c.Err = what
 			}
-			out.Violations = append(out.Violations, c11rViolation{Key: key, What: "full dkg.Run, artefacts on disk: " + what, Replay: *c})
+			out.Violations = append(out.Violations, c11rViolation{Key: key,
+				What:   fmt.Sprintf("full dkg.Run (%s %s, n=%d, threshold recorded in the lock t=%d, %d validators, no-verify=%v) returned nil on every node; artefacts on disk: %s", c.Algo, c.Flow, c.N, c.T, c.Vals, c.NoVerify, what),
+				Replay: *c})
 		}
 		out.Ceremonies = append(out.Ceremonies, *c)
 	}
